@@ -10,7 +10,8 @@ from common import qlit, natlit, lst, tup, coq_bad_indices, parallel_coq_bad, Co
 PROP = "C01"
 PROPERTY_FILE = "Properties/C01.v"
 GEN_DEPS = ["GenC01Trunc"]
-RULE = ("cases: chains MarkovChainProcess(StepModel, INVERSION, grid) on dyadic grids built by make_grid / "
+RULE = ("cases: TruncatedLevyMeasure.integrate(a,b) with [a,b] inside / outside / straddling / covering the truncation (clipping branch, "
+        "exact); chains MarkovChainProcess(StepModel, INVERSION, grid) on dyadic grids built by make_grid / "
         "create_from_fixed_nb_of_points / CTMCCredit, 3..60 states per side, refined 0..4 times, step measures with 1..8 pieces whose "
         "support covers, exceeds or lies inside the grid (truncation active / zero-rate states); compared exactly: create_q_vector, "
         "compute_intensity_of_jumps, MarkovChainProcess.intensity_of_jumps, and (relative 2^-50) the inversion sampler's "
@@ -20,11 +21,12 @@ MODELLED = ["numpy arrays as lists of Q, np.zeros/enumerate loop of create_q_vec
             "LevyMeasure.integrate as an abstract additive non-negative interval function `mass` over Q (Section Measure); the "
             "concrete closed forms of HEM/Merton/VG/CGMY are C09's business and are exercised here with a tolerance only",
             "copula chains (dimension 2, 3): Model/Chain.v defines intensity2/q_entry2 but no theorem is claimed; oracle only"]
-ASSUMPTIONS = ["mass a b = nu([a,b]) is additive (mass a c == mass a b + mass b c for a<=b<=c), non-negative and respects == : "
-               "hypotheses of Section Measure, discharged for the harness's step measures by C01_step_mass_is_a_measure and for "
-               "the model families by C09 (over R; here the statement is over Q, see THEOREM_NOTES)",
-               "grid.middle lies strictly inside a gap, middle(x,x)=x and respects == (true of the arithmetic mean: C13_amid_ok / "
-               "amid; monitored for the probability-step grid)"]
+ASSUMPTIONS = ["mass a b = nu([a,b]) is additive and non-negative ON INTERVALS NOT CONTAINING 0 (finite for every Levy measure, also VG/CGMY) "
+               "and respects == : hypotheses of Section Measure; discharged for the harness's step measures by "
+               "C01_step_mass_is_a_measure; for the model families they are what C09 is about, but C09 is over R and is NOT formally "
+               "composed with these Q theorems",
+               "grid.middle lies strictly inside a gap, middle(x,x)=x at the two (non-zero) end points and respects == (proved only for "
+               "the arithmetic mean; for the probability-step grid checked by the oracle per state)"]
 THEOREM_NOTES = {
     "number system": "theorems are proved over Q inside a Section with an abstract additive non-negative interval mass "
                      "`mass : Q -> Q -> Q` (simplification of DESIGN 2.1: no Num record / R instance); composing with C09's real-valued "
@@ -32,8 +34,8 @@ THEOREM_NOTES = {
     "C01_sum_rates_is_intensity_2d": "not proved (dimension 2/3 product grids): definitions intensity2/q_entry2 exist, the identity is "
                                      "checked by the oracle on copula chains only",
 }
-LEVEL_TEXT = ("Proof: 7 Coq theorems (closed under the global context): for every admissible axis of any length, any middle function "
-              "with the stated properties and any additive non-negative interval mass, the cells of the non-origin states tile "
+LEVEL_TEXT = ("Proof: 9 Coq theorems (closed under the global context): for every admissible axis of any length, any middle function "
+              "with the stated properties and any interval mass that is additive and non-negative away from the origin, the cells of the non-origin states tile "
               "[x_0,x_n] minus the central cell with shared end points and no overlap, every state lies in its cell, every rate is "
               ">= 0, and the sum of create_q_vector equals compute_intensity_of_jumps (telescoping); the truncated measure is the mass "
               "of the intersection and is again additive/non-negative, so the same holds for what MarkovChainProcess builds; "
